@@ -62,6 +62,11 @@ def segD3 (a : Rat) : Rat := 6 * a
 def segStem (a b c d xj X : Rat) : Rat :=
   a / 4 * (X - xj) ^ 4 + b / 3 * (X - xj) ^ 3 + c / 2 * (X - xj) ^ 2 + d * (X - xj)
 
+/-- the exact integral of the cubic over a range of width `w` that starts `t` to the right of the left knot, as `Integrate`
+    forms it since fix 441bef8: cubic and derivatives at the left limit (Horner), `w·(p0 + w·(p1/2 + w·(p2/3 + w·a/4)))` -/
+def segInteg (a b c d t w : Rat) : Rat :=
+  w * ((((a * t + b) * t + c) * t + d) + w * (((3 * a * t + 2 * b) * t + c) / 2 + w * ((3 * a * t + b) / 3 + w * a / 4)))
+
 /-! ## Index search (Bisection, Hunt, Locate) -/
 
 structure LState where
@@ -205,7 +210,7 @@ def Obj.derivative (o : Obj) (v : Rat) (k : Nat) : Except Err (Rat × Obj) := do
   | 3 => pure (o.pref * segD3 a, o')
   | _ => pure (0, o')
 
-/-- `Integrate(x_1, x_2)` -/
+/-- `Integrate(x_1, x_2)`: every piece integrated from its left limit, `sign * prefactor * sum` (fix 441bef8) -/
 def Obj.integrate (o : Obj) (v1 v2 : Rat) : Except Err (Rat × Obj) := do
   let (lo, hi, sgn) := if v1 > v2 then (v2, v1, (-1 : Rat)) else (v1, v2, (1 : Rat))
   let (i1, o1) ← o.locate lo
@@ -220,8 +225,9 @@ def Obj.integrate (o : Obj) (v1 v2 : Rat) : Except Err (Rat × Obj) := do
     let b := coefB o.N o.x o.y j
     let c := coefC o.N o.x o.y j
     let d := coefD o.y j
-    acc + (o.pref * segStem a b c d xj xr - o.pref * segStem a b c d xj xl)) (0 : Rat)
-  pure (sgn * total, o2)
+    acc + segInteg a b c d (xl - xj) (xr - xl)) (0 : Rat)
+  -- the prefactor is applied once to the sum (fix 441bef8)
+  pure (sgn * o.pref * total, o2)
 
 def listMin (l : List Rat) (d : Rat) : Rat := l.foldl rmin (l.headD d)
 def listMax (l : List Rat) (d : Rat) : Rat := l.foldl rmax (l.headD d)
